@@ -319,6 +319,9 @@ class Lowering:
         td = self.find_typedef(t)
         if td is not None:
             return const + self.ctype(td)
+        rec = self.find_record_via_typedef(t)
+        if rec is not None:
+            return const + self.record_cname(rec)
         raise Unsupported('type %r has no C mapping' % t)
 
     def mapped_scalar(self, t):
@@ -344,6 +347,27 @@ class Lowering:
                     u = t.get('desugaredQualType') or t.get('qualType')
                     if u and u != qname:
                         return u
+        return None
+
+    def find_record_via_typedef(self, qname):
+        """typedef struct { ... } NAME;  -- the record is anonymous, the typedef names it."""
+        def decl_ids(n):
+            out = []
+            if isinstance(n, dict):
+                if 'decl' in n and isinstance(n['decl'], dict) and 'id' in n['decl']:
+                    out.append(n['decl']['id'])
+                for k in n.get('inner') or []:
+                    out += decl_ids(k)
+            return out
+        for nid, q in self.tu.qual.items():
+            if q == qname:
+                n = self.tu.by_id[nid]
+                if n.get('kind') in ('TypedefDecl', 'TypeAliasDecl'):
+                    for did in decl_ids(n):
+                        r = self.tu.by_id.get(did)
+                        if r is not None and r.get('kind') == 'CXXRecordDecl' and r.get('completeDefinition'):
+                            self.tu.qual[r['id']] = qname      # name the anonymous record after its typedef
+                            return r
         return None
 
     def find_enum(self, qname):
@@ -1023,7 +1047,17 @@ class Lowering:
         return self.expr(kids(n)[0], ctx, discard)
 
     def e_ConstantExpr(self, n, ctx):
+        if 'value' in n and re.fullmatch(r'-?\d+', str(n['value'])) and ty(n) in ('int', 'unsigned int'):
+            # the compiler's own evaluation of a constant expression (case labels from system enums)
+            return '%s%s /* %s */' % (n['value'], 'U' if ty(n) == 'unsigned int' else '', self.const_name(n))
         return self.expr(kids(n)[0], ctx)
+
+    def const_name(self, n):
+        k = n
+        while kids(k):
+            k = kids(k)[0]
+        rd = k.get('referencedDecl') or {}
+        return re.sub(r'[^A-Za-z0-9_]', '', rd.get('name', ''))
 
     def e_ParenExpr(self, n, ctx, discard=False):
         return '(%s)' % self.expr(kids(n)[0], ctx, discard)
